@@ -426,10 +426,16 @@ func (s *Stream) executeFlow(
 	// we need to create the globalStream nodes and set them as default root.
 	// If needed we could replace them with the needed root.
 	start, _ := flowDirection.GetRoot()
-	if utils.IsInterfaceNil(start) {
+	if utils.IsInterfaceNil(start) &&
+		(utils.IsInterfaceNil(startFromNode) || len(startFromNode.GetEdges()) == 0) {
 		return shortCircuitNode, nil
 	}
-	node := start.GetNode()
+	// A response direction may have no stream entry (a flow that only continues an early response):
+	// the walk then starts from the short-circuit node's connection below.
+	var node internaltypes.FlowGraphNodeI
+	if !utils.IsInterfaceNil(start) {
+		node = start.GetNode()
+	}
 
 	if !utils.IsInterfaceNil(startFromNode) {
 		// If we have a short circuit, we need to start from the node that caused it
